@@ -10,7 +10,7 @@ from .c07 import mk
 from .common import MC, P, Q, TTL_FOREVER, RecTransport, loop_clean, new_loop
 
 PROPERTY = "C05"
-BUDGET_S = {"quick": 900, "thorough": 3400}
+BUDGET_S = {"quick": 900, "thorough": 7200}
 STUBS = [
     "event loop: VirtualLoop (symbolic integer ticks; events injected as the I/O batch of a solver-chosen iteration; consecutive events at one tick may share a batch)",
     "struct/bytes/enum lowering (TTL bytes of every Offer are symbolic)",
